@@ -64,6 +64,12 @@ def embed(env, Q, inner, pos):
         return q
     if pos == "insert-value":
         return Q.into(P.Table("t5")).insert(1, inner)
+    if pos == "arith-right":
+        return Q.from_(o).select(o.k * inner)
+    if pos == "arith-sub-right":
+        return Q.from_(o).select(o.k).where(o.j - inner > 0)
+    if pos == "arith-div-right":
+        return Q.from_(o).select((o.k + 1) / inner)
     if pos == "orderby-item":
         return Q.from_(o).select(o.k).orderby(o.j, inner)
     if pos == "groupby-item":
